@@ -793,6 +793,14 @@ struct Machine {
     if constexpr (olo < ohi) {
       const size_t ia = g.below(NSLOT), ib = g.below(NSLOT);
       beginStep("cross-order-assign");
+      if (g.chance(1, 2)) {
+        // target and source on the very same window (stale high-order
+        // coefficients of the target must not survive)
+        const Win w = genWin(g, n());
+        fresh<olo>(ia, w, g.chance(1, 3));
+        fresh<ohi>(ib, w, g.chance(1, 3));
+        c.count("cross-order-assign:same-window");
+      }
       ensure<olo>(ia);
       ensure<ohi>(ib);
       wrote(olo, ia);
@@ -889,6 +897,150 @@ struct Machine {
         }
       }
     } VF_CATCH(kind == 5 ? "C05" : "C04", names[kind], desc)
+    endStep();
+  }
+
+  // forms over pool objects (incl. moved-from, interval-free, point-like ones)
+  template <size_t oa, size_t ob>
+  void stepForms() {
+    using namespace bspline::operators;
+    using namespace bspline::integration;
+    const size_t ia = g.below(NSLOT), ib = g.below(NSLOT);
+    beginStep("forms");
+    ensure<oa>(ia);
+    ensure<ob>(ib);
+    wrote(oa, ia);
+    wrote(ob, ib);
+    endStep();
+    beginStep("forms");
+    mark();
+    const Spline<T, oa> &a = *slot<oa>(ia).s;
+    const Spline<T, ob> &b = *slot<ob>(ib).s;
+    const Den da = slot<oa>(ia).shadow, db = slot<ob>(ib).shadow;
+    const AbsM aa = absOf(a), ab = absOf(b);
+    const Win wa = winOf<oa>(ia), wb = winOf<ob>(ib);
+    const std::string desc = splineStr(a) + " , " + splineStr(b);
+    note("forms(" + std::to_string(oa) + "." + std::to_string(ia) + "," +
+         std::to_string(ob) + "." + std::to_string(ib) + ")");
+    c.count(std::string("place:forms:") + placementName(classify(wa, wb)));
+    const size_t lo = std::max(wa.start, wb.start), hi = std::min(wa.end, wb.end);
+    auto absInt = [&](const Poly &S, const R &h) {
+      R r(0), hp = h;
+      for (size_t j = 0; j < S.size(); j++) {
+        r += S[j] * 2 * hp / R(j + 1);
+        hp *= h;
+      }
+      return r;
+    };
+    try {
+      R sp(0), spS(0), xd(0), xdS(0);
+      const Den xa = model::dmulx(da, 1), ddb = model::dderiv(db, 1);
+      const AbsM xaA = absMulX(aa, 1, gridPts), ddbA = absDeriv(ab, 1);
+      if (!wa.empty() && !wb.empty())
+        for (size_t k = lo; k + 1 < hi; k++) {
+          const R h = (gridPts[k + 1] - gridPts[k]) / 2;
+          sp += model::pintegral(model::pmul(da.pc[k], db.pc[k]), gridPts[k], gridPts[k + 1]);
+          spS += absInt(model::pmul(aa[k], ab[k]), h);
+          xd += model::pintegral(model::pmul(xa.pc[k], ddb.pc[k]), gridPts[k], gridPts[k + 1]);
+          xdS += absInt(model::pmul(xaA[k], ddbA[k]), h);
+        }
+      auto judge = [&](const char *prop, const char *what, const T &val,
+                       const R &ex, const R &S) {
+        Verdict v = agreeScalar(val, ex, S);
+        if constexpr (!ST<T>::exact) c.maxval(std::string("ratio:") + what, v.ratio);
+        if (!v.ok) viol(prop, std::string("history/") + what, desc + ": " + v.why);
+        c.count(std::string("forms:") + what);
+      };
+      judge("C06", "scalar-product", ScalarProduct{}(a, b), sp, spS);
+      judge("C06", "bilinear-X-Dx", BilinearForm{X<1>{}, Dx<1>{}}(a, b), xd, xdS);
+      R lf(0), lfS(0), l2(0), l2S(0);
+      const Den x2 = model::dmulx(da, 2);
+      const AbsM x2A = absMulX(aa, 2, gridPts);
+      for (size_t k = wa.start; k + 1 < wa.end; k++) {
+        const R h = (gridPts[k + 1] - gridPts[k]) / 2;
+        lf += model::pintegral(x2.pc[k], gridPts[k], gridPts[k + 1]);
+        lfS += absInt(x2A[k], h);
+      }
+      for (size_t k = wb.start; k + 1 < wb.end; k++) {
+        const R h = (gridPts[k + 1] - gridPts[k]) / 2;
+        l2 += model::pintegral(db.pc[k], gridPts[k], gridPts[k + 1]);
+        l2S += absInt(ab[k], h);
+      }
+      judge("C07", "linear-X2", LinearForm{X<2>{}}(a), lf, lfS);
+      judge("C07", "linear-identity", LinearForm{}(b), l2, l2S);
+    } VF_CATCH("C06", "forms", desc)
+    endStep();
+  }
+
+  // an object that changes its grid during its lifetime: it lives on the
+  // cousin grid, is refused once, is then overwritten by a value on the main
+  // grid (through a move assignment / temporary / lower-order assignment) and
+  // must from then on combine with main-grid objects; and the mirror image.
+  template <size_t oa, size_t ob>
+  void stepMigrate() {
+    const size_t ia = g.below(NSLOT), ib = g.below(NSLOT);
+    beginStep("grid-migration");
+    ensure<oa>(ia);
+    ensure<ob>(ib);
+    wrote(oa, ia);
+    wrote(ob, ib);
+    endStep();
+    beginStep("grid-migration");
+    mark();
+    const Spline<T, oa> &a = *slot<oa>(ia).s;
+    const Spline<T, ob> &b = *slot<ob>(ib).s;
+    const Den da = slot<oa>(ia).shadow, db = slot<ob>(ib).shadow;
+    const std::string desc = splineStr(a) + " , " + splineStr(b);
+    note("migrate(" + std::to_string(oa) + "." + std::to_string(ia) + "," +
+         std::to_string(ob) + "." + std::to_string(ib) + ")");
+    auto refused = [&](auto &&f) {
+      try {
+        f();
+      } catch (const BSplineException &e) {
+        return e.getErrorCode() == ErrorCode::DIFFERING_GRIDS;
+      } catch (const std::exception &) {
+      }
+      return false;
+    };
+    try {
+      Spline<T, oa> x = *cousin<oa>().s;  // starts on the cousin grid
+      if (!refused([&] { auto r = x + b; (void)r; }) ||
+          !refused([&] { auto r = b * x; (void)r; }))
+        viol("C08", "cross-grid/migration-before", desc);
+      const int how = (int)g.below(3);
+      if (how == 0) {
+        Spline<T, oa> tmp(a);
+        x = std::move(tmp);
+      } else if (how == 1) {
+        x = a * mk<T>(R(1));
+      } else {
+        x = Spline<T, oa>(a);
+      }
+      c.count("migration:how:" + std::to_string(how));
+      // now x denotes a and lives on the main grid
+      checkResult("C03", "add", x + b, model::dadd(da, db), absAdd(absOf(x), absOf(b)),
+                  desc + " (left operand migrated from another grid)");
+      checkResult("C03", "add", b + x, model::dadd(da, db), absAdd(absOf(x), absOf(b)),
+                  desc + " (right operand migrated from another grid)");
+      checkResult("C03", "mul", x * b, model::dmul(da, db), absMul(absOf(x), absOf(b)),
+                  desc + " (left operand migrated from another grid)");
+      if (!(x == a))
+        viol("C15", "spline-equality/after-migration", desc);
+      // mirror image: y has combined with b, then moves to the cousin grid
+      Spline<T, oa> y(a);
+      { auto r = y + b; (void)r; }
+      { auto r = b * y; (void)r; }
+      Spline<T, oa> tmp2(*cousin<oa>().s);
+      if (g.chance(1, 2))
+        y = std::move(tmp2);
+      else
+        y = tmp2 * mk<T>(R(1));
+      if (!refused([&] { auto r = y + b; (void)r; }) ||
+          !refused([&] { auto r = b + y; (void)r; }) ||
+          !refused([&] { auto r = y * b; (void)r; }))
+        viol("C08", "cross-grid/migration-after", desc);
+      c.count("migration:checked");
+    } VF_CATCH("C03", "grid-migration", desc)
     endStep();
   }
 
@@ -1206,10 +1358,14 @@ struct Machine {
           stepOperator<A>((int)g.below(6));
         } else if (roll < 81) {
           stepLinComb<A>();
-        } else if (roll < 90) {
+        } else if (roll < 88) {
           dispatchOrder<MAXO>(g.chance(1, 2) ? oa : ob, [&](auto OB) {
             stepPredicates<A, OB.value>();
           });
+        } else if (roll < 91) {
+          dispatchOrder<MAXO>(ob, [&](auto OB) { stepForms<A, OB.value>(); });
+        } else if (roll < 93) {
+          dispatchOrder<MAXO>(ob, [&](auto OB) { stepMigrate<A, OB.value>(); });
         } else {
           dispatchOrder<MAXO>(ob, [&](auto OB) {
             stepFailing<A, OB.value>((int)g.below(12));
